@@ -19,14 +19,14 @@ func init() {
 		ID: "C06", Level: "exploration", Primary: "pipeline_shapes", EvalCount: "requests_numbered",
 		Rule: "one pipeline = N (1..256) requests of mixed operations on one connection, message IDs a random permutation-like draw (so Request.ID cannot be confused with the message ID), written in one " +
 			"segment or dribbled; some requests have no route (gaps in the observed numbering); a PRNG-chosen subset of handlers parks on a rendezvous: handler i returns only after handler i+d " +
-			"(or a handler on a second connection) has entered; a second family of pipelines performs a real StartTLS upgrade in the middle (numbering must continue across it); a third has its first handler blocked inside Write by a client that does not read (later handlers must still be entered); a fourth repeats message IDs within the pipeline (requests identified by DN, every handler waiting for all others); a fifth keeps a handler blocked while its own connection ends (FIN, reset, Unbind, malformed frame) and requires connections that exist already and connections made afterwards to be served meanwhile; a sixth sends N requests and, in the same write, an Unbind / half-close / close (every request that was read is handed to its handler); a seventh has a handler that outlives the server's read timeout while the client is silent, then further requests on that connection (whatever is still served carries its arrival position); every fourth mixed pipeline runs on a server created WithDisablePanicRecovery. Oracle: Request.ID == 1-based position in the client's send order for every handler invocation; every rendezvous completes. " +
+			"(or a handler on a second connection) has entered; a second family of pipelines performs a real StartTLS upgrade in the middle (numbering must continue across it); a third has its first handler blocked inside Write by a client that does not read (later handlers must still be entered); a fourth repeats message IDs within the pipeline (requests identified by DN, every handler waiting for all others); a fifth keeps a handler blocked while its own connection ends (FIN, reset, Unbind, malformed frame) and requires connections that exist already and connections made afterwards to be served meanwhile; a sixth sends N requests and, in the same write, an Unbind / half-close / close (every request that was read is handed to its handler); a seventh has a handler that outlives the server's read timeout while the client is silent, then further requests on that connection (whatever is still served carries its arrival position); every fourth mixed pipeline runs on a server created WithDisablePanicRecovery, every fifth over a TLS listener, every sixth on a server with a 30s read timeout. Oracle: Request.ID == 1-based position in the client's send order for every handler invocation; every rendezvous completes. " +
 			"distinct_nontrivial = distinct (N, operation mix, rendezvous pattern, write mode) signatures with at least one satisfied rendezvous",
 		Assume: []string{"extended requests are identified by the exact-name route that served them (their message ID is not exposed to handlers)",
 			"a rendezvous that does not complete within the watchdog is judged only by the recorded enter/exit order (serial dispatch), otherwise inconclusive"},
 		Phases: func(tier string, seed int64) []Phase {
 			return []Phase{{Name: "pipelines", Run: c06Run}}
 		},
-		MinObserved: []string{"requests_numbered", "rendezvous_satisfied", "cross_connection_rendezvous_satisfied", "pipelines_with_starttls_upgrade", "pipelines_with_a_handler_blocked_in_write", "requests_served_through_the_default_route", "pipelines_with_repeated_message_ids", "connections_served_while_another_connections_handler_is_blocked", "fire_and_forget_pipelines", "pipelines_on_a_server_without_panic_recovery", "connections_with_a_handler_outliving_the_read_timeout"},
+		MinObserved: []string{"requests_numbered", "rendezvous_satisfied", "cross_connection_rendezvous_satisfied", "pipelines_with_starttls_upgrade", "pipelines_with_a_handler_blocked_in_write", "requests_served_through_the_default_route", "pipelines_with_repeated_message_ids", "connections_served_while_another_connections_handler_is_blocked", "fire_and_forget_pipelines", "pipelines_on_a_server_without_panic_recovery", "connections_with_a_handler_outliving_the_read_timeout", "pipelines_over_a_tls_listener", "pipelines_on_a_server_with_a_read_timeout"},
 	})
 }
 
@@ -57,6 +57,11 @@ type c06Conn struct {
 }
 
 var c06GiveUp atomic.Bool
+
+var (
+	c06PKIOnce sync.Once
+	c06PKI     *PKI
+)
 
 func c06ExtName(conn, pos int) string { return fmt.Sprintf("1.9.%d.%d", conn, pos) }
 
@@ -212,7 +217,19 @@ func c06Pipeline(c *Ctx, r *Rand, idx int) {
 	if noRecover {
 		c.Count("pipelines_on_a_server_without_panic_recovery", 1)
 	}
-	srv, err := startSrv(SrvCfg{DisableRecover: noRecover}, func(m *gldap.Mux) {
+	// every fifth one runs over a TLS listener, every sixth one on a server with a (long) read timeout configured
+	scfg := SrvCfg{DisableRecover: noRecover}
+	var ctc *tls.Config
+	if idx%5 == 2 {
+		c06PKIOnce.Do(func() { c06PKI = newPKI() })
+		scfg.TLS, ctc = c06PKI.ServerOnly, c06PKI.ClientPlain
+		c.Count("pipelines_over_a_tls_listener", 1)
+	}
+	if idx%6 == 3 {
+		scfg.ReadTimeout = 30 * time.Second
+		c.Count("pipelines_on_a_server_with_a_read_timeout", 1)
+	}
+	srv, err := startSrv(scfg, func(m *gldap.Mux) {
 		gen := func(w *gldap.ResponseWriter, req *gldap.Request) {
 			o := observe("", req)
 			ci, q := findGeneric(req, o)
@@ -266,7 +283,7 @@ func c06Pipeline(c *Ctx, r *Rand, idx int) {
 		wg.Add(1)
 		go func(ci int, cn *c06Conn, rr *Rand) {
 			defer wg.Done()
-			cl, err := dialRaw(srv.Addr, nil)
+			cl, err := dialRaw(srv.Addr, ctc)
 			if err != nil {
 				c.Inconclusive("dial: " + err.Error())
 				return
